@@ -72,8 +72,89 @@ def e1_plan(obs_map, obs_set, alpha="structural", quick_types=ALL, canonical_obs
     return f
 
 
+def pr(ptype, universe, embed, mode, alpha, right_alpha, right_kind="map", threads=4, **kw):
+    d = {"engine": "pairs", "ptype": ptype, "universe": universe, "embed": embed, "mode": mode, "alpha": alpha, "right_alpha": right_alpha,
+         "right_kind": right_kind, "threads": threads}
+    d.update(kw)
+    return d
+
+
+def plan_pairs(tier, seed):
+    """[E2] all ordered pairs of reachable states x pairs of view roots (C05-C08, C13, C18)"""
+    runs = [
+        # every shape x every shape, whole-map views
+        pr("u8", "U2", "hi", "whole", "structural", "structural", threads=8),
+        # canonical x all and all x canonical shapes, every pair of view roots (stored, branching, virtual; equal, nested, disjoint)
+        pr("u8", "U2", "hi", "all", "canonical", "structural", threads=8),
+        pr("u8", "U2", "hi", "all", "structural", "canonical", threads=8),
+        # a set on the right (different value type)
+        pr("u8", "U2", "hi", "all", "canonical", "structural", right_kind="set", threads=4),
+        pr("u32", "U2", "hi", "whole", "structural", "structural", right_kind="set", threads=4),
+    ]
+    # other types and the bottom-of-address embedding: canonical x canonical, all root pairs
+    for t in (ALL if tier == "thorough" else REP7):
+        for e in ("hi", "lo"):
+            if (t, e) != ("u8", "hi"):
+                runs.append(pr(t, "U2", e, "all", "canonical", "canonical", threads=2))
+    if tier == "thorough":
+        runs += [
+            pr("u8", "U2", "hi", "all", "structural", "structural", threads=16, all_roots=True),
+            pr("u32", "U2", "lo", "whole", "structural", "structural", threads=8),
+            pr("u16", "U3half", "hi", "whole", "structural", "structural", threads=16),
+            pr("u8", "U3half", "hi", "all", "canonical", "structural", threads=16),
+            pr("u8", "U3half", "hi", "all", "structural", "canonical", threads=16),
+            pr("Ipv4Net", "U3", "hi", "all", "canonical", "canonical", threads=16, a_mod=8, a_rem=seed % 8),
+        ]
+    return {"runs": runs, "jobs": 4 if tier == "quick" else 2,
+            "rule": "pair engine: every ordered pair (a, b) of the listed reachable-state sets of real PrefixMaps/PrefixSets and every pair of view roots is evaluated with all eight set operations "
+                    "against set comprehensions over the two reference models; distinct = (pair, root pair) evaluations with a non-empty union, plus the distinct shapes of the generating explorations"}
+
+
+def plan_c13(tier, seed):
+    p = e1_plan(["split_hold"], [], alpha="full", kinds=("map",))(tier, seed)
+    q = plan_pairs(tier, seed)
+    p["runs"] += q["runs"] + [{"engine": "selfpairs", "ptype": t, "universe": "U2", "embed": e, "threads": 2} for t in (REP7 if tier == "quick" else ALL) for e in ("hi", "lo")]
+    p["jobs"] = 6
+    return p
+
+
+def plan_c18(tier, seed):
+    """representations are part of the state key: every (stored A|B) x (operation / query A|B) combination"""
+    types = ["u8", "Ipv4Net", "Ipv6Inet"] if tier == "quick" else [t for t in ALL if "Cidr" not in t]
+    runs = [ex("map", t, "U2", "hi", "full", ["exact", "lpm", "cover", "children", "views"], reps=True, threads=6, nav_light=True) for t in types]
+    runs += [ex("set", t, "U2", "hi", "full", ["lookups"], reps=True, threads=2) for t in types]
+    runs += grid(["map"], ALL, ["U2"], ["lo"], "structural", ["exact", "lpm"], rep_mode=2)
+    runs += plan_pairs(tier, seed)["runs"]
+    return {"runs": runs, "jobs": 4}
+
+
+def plan_c19(tier, seed):
+    types = REP7 if tier == "quick" else ALL
+    runs = [{"engine": "eqpairs", "kind": k, "ptype": t, "universe": "U2", "embed": e, "threads": 2} for k in ("map", "set") for t in types for e in ("hi", "lo")]
+    runs += grid(["map"], ["u8", "Ipv4Net"] if tier == "quick" else ALL, ["U2"], ["hi", "lo"], "full", ["clone_indep"])
+    if tier == "thorough":
+        runs += [{"engine": "eqpairs", "kind": "map", "ptype": "Ipv4Net", "universe": "U3half", "embed": "hi", "threads": 16}]
+    return {"runs": runs, "jobs": 8}
+
+
+def plan_c17(tier, seed):
+    return {"runs": [{"engine": "algebra", "ptype": t, "seed": seed, "deep": tier == "thorough"} for t in ALL], "jobs": 14,
+            "rule": "every (address, length) value and every ordered pair of the 8-bit tuple type; for wider types all lengths x position of the first differing bit x head patterns x host-bit patterns, "
+                    "every bit index 0..=255; a seeded random supplement is counted separately as sampled_pairs and never decides; distinct = values + pairs evaluated",
+            "explanation": "exhaustive enumeration of the input space of the prefix algebra against a bit-by-bit reference (not a state-space search: the algebra is stateless)"}
+
+
 PLANS = {
     "C01": plan_c01,
+    "C17": plan_c17,
+    "C13": plan_c13,
+    "C16": e1_plan(["churn"], [], alpha="full"),
+    "C18": plan_c18,
+    "C19": plan_c19,
+    "C05": plan_pairs,
+    "C06": plan_pairs,
+    "C07": plan_pairs,
+    "C08": plan_pairs,
     "C02": e1_plan(["lpm"], ["lookups"]),
     "C03": e1_plan(["iters"], ["iters"]),
     "C04": e1_plan([], [], alpha="full"),
@@ -119,7 +200,7 @@ def shape_notes(runs):
 # evidence
 # ------------------------------------------------------------------------------------------------
 
-LEVELS = {}
+LEVELS = {"C17": "exploration"}
 
 
 def write_evidence(prop, tier, seed, plan, runs, wall, violations=0, build_s=0.0, known_hits=None, note=None):
